@@ -600,12 +600,19 @@ vbi_deferred_trigger(vbi_decoder *vbi)
 		if (t->fire <= vbi->time) {
 			vbi_event ev;
 
+			/* The event handler may flush the list, for example
+			   when the last VBI_EVENT_TRIGGER handler removes
+			   itself and registers again. Take the trigger off
+			   the list first and start over afterwards. */
+			*tp = t->next;
+
 			ev.type = VBI_EVENT_TRIGGER;
 			ev.ev.trigger = &t->link;
 			vbi_send_event(vbi, &ev);
 
-			*tp = t->next;
 			free(t);
+
+			tp = &vbi->triggers;
 		} else
 			tp = &t->next;
 }
